@@ -1535,6 +1535,10 @@ def chan_recv(ex, st, fr, ins, ch):
     b = st.heap.get(('chanbuf', ch.cid))
     if b is not None:
         items, cap_ = b
+        if not items and st.heap.get(('chanext', ch.cid)):
+            # fed from outside the program (os/signal): the receive completes when the event arrives
+            ex.setreg(fr, ins, (Opaque('signal'), z3.BoolVal(True)) if ins.get('commaok') else Opaque('signal'))
+            return
         if not items:
             raise PathEnd('panic', 'deadlock: receive from an empty buffered channel with no sender on this path at %s' % ins.get('pos'))
         st.heap[('chanbuf', ch.cid)] = (items[1:], cap_)
@@ -1807,6 +1811,13 @@ def new_ps(ex, st, args):
     return (Ptr(st.alloc(Struct(f))), NIL)
 
 
+def signal_Notify(ex, st, args, ctx):
+    used('os/signal.Notify: the channel receives a value when one of the signals arrives (external event)')
+    if isinstance(args[0], Chan):
+        st.heap[('chanext', args[0].cid)] = True
+    return None
+
+
 def cli_stubs():
     P = 'worldcoin/gnark-mbu/prover.'
     proof = lambda ex, st, a: (Ptr(st.alloc(Struct([Opaque('proof', sys='x', witness=None, coords=None)]))), NIL)
@@ -1835,7 +1846,7 @@ def cli_stubs():
         'worldcoin/gnark-mbu/server.Run': lambda ex, st, a, c: (st.events.append(('api', 'server.Run', 'ok', ())) or Struct([Chan(new_oid()), Chan(new_oid())])),
         '(*worldcoin/gnark-mbu/server.RunningJob).RequestStop': lambda ex, st, a, c: st.events.append(('api', 'RequestStop', 'ok', ())),
         '(*worldcoin/gnark-mbu/server.RunningJob).AwaitStop': lambda ex, st, a, c: st.events.append(('api', 'AwaitStop', 'ok', ())),
-        'os/signal.Notify': lambda ex, st, a, c: None, 'time.Now': lambda ex, st, a, c: Opaque('time'), 'time.Since': lambda ex, st, a, c: bvval(0, 64),
+        'os/signal.Notify': signal_Notify, 'time.Now': lambda ex, st, a, c: Opaque('time'), 'time.Since': lambda ex, st, a, c: bvval(0, 64),
         'worldcoin/gnark-mbu/logging.SetJSONOutput': lambda ex, st, a, c: None,
         'worldcoin/gnark-mbu/poseidon_tree.NewTree': lambda ex, st, a, c: Struct([Iface(-2, Opaque('tree'))]),
         '(*worldcoin/gnark-mbu/poseidon_tree.PoseidonTree).Root': lambda ex, st, a, c: Big(z3.BitVec(ex.newsym('root'), BIG)),
@@ -2025,3 +2036,63 @@ def i_deployed_handler(ex, st, args, ctx):
 
 
 INTRINSICS.update({'verifDeployedHandler': i_deployed_handler})
+
+
+# ------------------------------------------------------------------------------------------ strings.* on z3 strings, encoding/hex
+def _zs(ex, x):
+    return ex.zstr(x)
+
+
+def strings_TrimPrefix(ex, st, args, ctx):
+    s_, p_ = _zs(ex, args[0]), _zs(ex, args[1])
+    return Str(z3.simplify(z3.If(z3.PrefixOf(p_, s_), z3.SubString(s_, z3.Length(p_), z3.Length(s_) - z3.Length(p_)), s_)))
+
+
+def strings_TrimSuffix(ex, st, args, ctx):
+    s_, p_ = _zs(ex, args[0]), _zs(ex, args[1])
+    return Str(z3.simplify(z3.If(z3.SuffixOf(p_, s_), z3.SubString(s_, 0, z3.Length(s_) - z3.Length(p_)), s_)))
+
+
+def hex_DecodeString(ex, st, args, ctx):
+    used('encoding/hex.DecodeString: succeeds exactly on strings of an even number of hexadecimal digits (uninterpreted isHex/hexval/length over opaque strings; bound: at most %d bytes)' % NB)
+    s_ = _zs(ex, args[0])
+    ok = uf(ex, 'isEvenHex', z3.StringSort(), z3.BoolSort())(s_)
+    val = uf(ex, 'hexval', z3.StringSort(), z3.BitVecSort(BIG))(s_)
+    L = z3.Extract(63, 0, z3.Int2BV(z3.Length(s_) / 2, 64)) if False else z3.BitVec(ex.newsym('hexbytes'), 64)
+
+    def good(s2):
+        s2.pc.append(z3.ULE(L, bvval(NB, 64)))
+        s2.pc.append(z3.BV2Int(L) * 2 == z3.Length(s_))
+        s2.pc.append(z3.Or(L == NB, z3.ULT(val, bvval(1, BIG) << z3.ZeroExt(BIG - 64, 8 * L))))
+        s2.events.append(('hexdecode', s_, val))
+        sh = z3.ZeroExt(BIG - 64, bvval(8, 64) * (bvval(NB, 64) - L))
+        return (new_bytes(ex, s2, byte_cells_of_bv(z3.simplify(val << sh), NB), L, 0, NB), NIL)
+
+    def bad(s2):
+        return (Slice(None, 0, 0, 0), Iface(-1, Opaque('error', msg=S('encoding/hex: invalid byte or odd length'), origin=ctx['pos'])))
+    return Forks([(ok, good, None), (z3.Not(ok), bad, None)])
+
+
+BASE.update({'strings.TrimPrefix': strings_TrimPrefix, 'strings.TrimSuffix': strings_TrimSuffix,
+             'strings.HasPrefix': lambda ex, st, a, c: z3.simplify(z3.PrefixOf(_zs(ex, a[1]), _zs(ex, a[0]))),
+             'strings.HasSuffix': lambda ex, st, a, c: z3.simplify(z3.SuffixOf(_zs(ex, a[1]), _zs(ex, a[0]))),
+             'strings.Contains': lambda ex, st, a, c: z3.simplify(z3.Contains(_zs(ex, a[0]), _zs(ex, a[1]))),
+             'encoding/hex.DecodeString': hex_DecodeString})
+
+
+def hex_EncodeToString(ex, st, args, ctx):
+    used('encoding/hex.EncodeToString: two lower-case hexadecimal digits per byte (leading zero digits kept)')
+    b = args[0]
+    v = bytes_value(ex, st, b) if b is not NIL else bvval(0, BIG)
+    return Str(parts=[('hexpad', v, b.len if b is not NIL else 0)])
+
+
+def strings_TrimLeft(ex, st, args, ctx):
+    x, cut = args[0], args[1]
+    cz = z3.simplify(ex.zstr(cut))
+    if x.parts is not None and len(x.parts) == 1 and x.parts[0][0] == 'hexpad' and z3.is_string_value(cz) and cz.as_string() == '0':
+        return Str(num=('', '16z', x.parts[0][1]))
+    raise Unsupported('strings.TrimLeft(%r, %s)' % (x, cz))
+
+
+BASE.update({'encoding/hex.EncodeToString': hex_EncodeToString, 'strings.TrimLeft': strings_TrimLeft})
